@@ -3,7 +3,7 @@ From Coq Require Import ZArith List Bool.
 Import ListNotations.
 Require Import GV.Gen.Consts GV.Model.Outcome GV.Model.J1939 GV.Model.Governor GV.Model.Hcu GV.Model.Object
   GV.Model.HcuUnit GV.Model.Units GV.Model.Volvo GV.Model.Authority GV.Proofs.C10_proof
-  GV.Model.CanNet GV.Model.Auth_io GV.Spec.C10_spec GV.Proofs.C10_whole.
+  GV.Model.CanNet GV.Model.Auth_io GV.Spec.C10_spec GV.Proofs.C10_whole GV.Proofs.C10_names.
 Local Open Scope Z_scope.
 
 (* Healthy is published only if at least one message has been accepted and the last one is
@@ -79,3 +79,12 @@ Theorem C10_cycle_publishes_decisions : forall a now,
                         | None => [] end) (a_items a).
 Proof. exact tick_publishes. Qed.
 Print Assumptions C10_cycle_publishes_decisions.
+
+(* ---- end to end: the very predicate the check evaluates on the real publications (statuses
+   matched to units by their canonical names, exactly one per name, nothing under a foreign
+   name) holds of the authority model for EVERY well-formed case: any driver configuration with
+   distinct unit names, any history with non-negative waits ---- *)
+Theorem C10 : forall c, c10_wf c = true -> c10_spec_ok c (amodel c) = true.
+Proof. exact c10_holds_all. Qed.
+Check C10 : forall c, c10_wf c = true -> c10_spec_ok c (amodel c) = true.
+Print Assumptions C10.
